@@ -68,7 +68,16 @@ func (concEngine) Gen(prop string, seed uint64, tier string) *Spec {
 		n := 3 + rng.Intn(maxops-2)
 		var ops []Op
 		dirSlot := func() int { return []int{slotRoot, slotD1, slotD1, slotD2, slotD2, slotSub}[rng.Intn(6)] }
-		name := func() string { return concNames[rng.Intn(len(concNames))] }
+		name := func() string {
+			if rng.Chance(0.04) {
+				return []string{".", ".."}[rng.Intn(2)]
+			}
+			if rng.Chance(0.05) {
+				// the shared directories themselves, by name (rename onto / of an ancestor)
+				return []string{"d1", "d2", "sub"}[rng.Intn(3)]
+			}
+			return concNames[rng.Intn(len(concNames))]
+		}
 		fileSlot := func() int {
 			// a handle this client obtained itself, or one of the shared files
 			var own []int
@@ -87,10 +96,17 @@ func (concEngine) Gen(prop string, seed uint64, tier string) *Spec {
 			switch rng.Pick([]int{10, 8, 10, 12, 8, 6, 5, 4, 6, 3, 3, 2, 2}) {
 			case 0:
 				op = Op{K: "create", H: dirSlot(), N: name(), How: rng.Intn(2)}
+				if rng.Chance(0.12) {
+					// fails late (after an inode was allocated): an aborted transaction that modified state
+					op.N = strings.Repeat("L", 113+rng.Intn(3))
+				}
 			case 1:
 				op = Op{K: "remove", H: dirSlot(), N: name()}
 			case 2:
 				op = Op{K: "rename", H: dirSlot(), N: name(), H2: dirSlot(), N2: name()}
+				if rng.Chance(0.08) {
+					op.N2 = strings.Repeat("L", 113+rng.Intn(3)) // refused after the source was unlinked in memory
+				}
 			case 3:
 				op = Op{K: "write", H: fileSlot(), Off: uint64(rng.Intn(3)) * 2048, Len: uint64(1 + rng.Intn(5000)), Pat: pat, How: rng.Intn(3)}
 				op.Cnt = op.Len
@@ -108,6 +124,9 @@ func (concEngine) Gen(prop string, seed uint64, tier string) *Spec {
 				op = Op{K: "readdirplus", H: dirSlot(), Len: 100000}
 			case 8:
 				op = Op{K: "mkdir", H: dirSlot(), N: name()}
+				if rng.Chance(0.12) {
+					op.N = strings.Repeat("L", 113+rng.Intn(3))
+				}
 			case 9:
 				op = Op{K: "rmdir", H: dirSlot(), N: name()}
 			case 10:
